@@ -1,4 +1,5 @@
 import SaModel.Lemmas.C01CompDefs
+import SaModel.Lemmas.C01DefaultAt
 /-
 Completeness, non-recursive operations: `serialize_default` (k placeholders) and `serialize_none` succeed on every
 builder whose schema supports them, and leave the head room unchanged.
@@ -67,6 +68,51 @@ theorem isIntLeaf_form {idx : B} (h : idx.isIntLeaf = true) : ∃ p t v vals, id
   | _ => simp [B.isIntLeaf] at h
 
 theorem OffsOK.ne_nil' {offs : List Int} {n : Nat} (h : OffsOK offs n) : offs ≠ [] := h.ne_nil
+
+theorem ShapeU_length : ∀ (fs : BL) (ufs : UFields) (i : Nat), ShapeU fs ufs i → fs.length = UFields.length ufs
+  | .nil, .nil, _, _ => rfl
+  | .nil, .cons _ _ _, _, h => by simp [ShapeU] at h
+  | .cons _ _ _, .nil, _, h => by simp [ShapeU] at h
+  | .cons b m r, .cons tid (.mk _ _ _ _) rest, i, h => by
+    simp only [ShapeU] at h
+    simp only [BL.length, UFields.length, ShapeU_length r rest (i + 1) h.2.2]
+
+/-- a builder is the `UnknownVariant` placeholder exactly when its field says so -/
+theorem Shape_placeholder {b : B} {dt : DataType} {n : Bool} {md : Metadata} (h : Shape b dt n md) :
+    b.isPlaceholder = isUnknownVariant dt md := by
+  cases b with
+  | null p len => simp only [Shape] at h; rw [h.1, h.2]; rfl
+  | unknownVariant p => simp only [Shape] at h; rw [h.1, h.2]; rfl
+  | leaf p k v vals =>
+    simp only [Shape] at h
+    cases dt <;> simp [kindOf] at h <;> rfl
+  | bytes p ty v offs data => simp only [Shape] at h; rw [h.1]; cases ty <;> rfl
+  | bytesView p ty v views buf => simp only [Shape] at h; rw [h.1]; cases ty <;> rfl
+  | fixedSizeBinary p k len v buf cur => simp only [Shape] at h; rw [h.1]; rfl
+  | list p large fm v offs el =>
+    simp only [Shape] at h
+    obtain ⟨_, cname, cdt, cn, cmd, rfl, _⟩ := h
+    cases large <;> rfl
+  | fixedSizeList p fm k len v cur el =>
+    simp only [Shape] at h
+    obtain ⟨_, cname, cdt, cn, cmd, rfl, _⟩ := h
+    rfl
+  | map p mm v offs ks vs =>
+    simp only [Shape] at h
+    obtain ⟨_, ename, kn, kdt, knl, kmd, vn, vdt, vnl, vmd, rest, en, emd, sorted, rfl, _⟩ := h
+    rfl
+  | struct p len v fs cached next seen =>
+    simp only [Shape] at h
+    obtain ⟨_, sfs, rfl, _⟩ := h
+    rfl
+  | dictionary p idx vals index =>
+    simp only [Shape] at h
+    obtain ⟨⟨kdt, vdt, rfl⟩, _⟩ := h
+    rfl
+  | union p fs types offs cur =>
+    simp only [Shape] at h
+    obtain ⟨ufs, mode, rfl, _⟩ := h
+    rfl
 
 mutual
 theorem pushDefaultK_total : ∀ (b : B) (k : Nat) (dt : DataType) (n : Bool) (md : Metadata), WFB b → Shape b dt n md →
@@ -137,25 +183,26 @@ theorem pushDefaultK_total : ∀ (b : B) (k : Nat) (dt : DataType) (n : Bool) (m
     simp only [Shape] at hs
     obtain ⟨ufs, mode, rfl, hsu⟩ := hs
     cases ufs with
-    | nil => simp [defOK, defOKHead] at hd
+    | nil => simp [defOK, defOKFirst] at hd
     | cons _ _ _ => simp [ShapeU] at hsu
   | .union p (.cons c m rest) types offs cur, k, dt, n, md, hwf, hs, hd => by
-    simp only [WFB, WFU] at hwf
+    simp only [WFB] at hwf
     simp only [Shape] at hs
     obtain ⟨ufs, mode, rfl, hsu⟩ := hs
-    cases ufs with
-    | nil => simp [ShapeU] at hsu
-    | cons tid f urest =>
-      obtain ⟨fname, fdt, fn, fmd⟩ := f
-      simp only [ShapeU] at hsu
-      simp only [defOK, defOKHead, defOKF] at hd
-      obtain ⟨c', hc, hr⟩ := pushDefaultK_total c k fdt fn fmd hwf.2.2.1.1 hsu.2.1 hd
-      refine ⟨.union p (.cons c' m rest) (types ++ List.replicate k 0)
-        (offs ++ (List.range k).map (fun (i : Nat) => cur.getD 0 0 + (i : Int))) (cur.set 0 (cur.getD 0 0 + k)), ?_, ?_⟩
-      · rw [pushDefaultK]
-        simp only [ctx_ok]
-        exact (bind_ok _ _ _).2 ⟨_, hc, rfl⟩
-      · simp only [room, roomL, hr]
+    simp only [defOK, Bool.and_eq_true, decide_eq_true_eq] at hd
+    obtain ⟨j, fs', hj, hat, hroom⟩ := pushDefaultK_total_first (.cons c m rest) k ufs 0 cur hwf.2.2.1 hsu hd.2
+    have hfr : firstReal (.cons c m rest) = j := by simp only [firstReal, hj, Option.getD_some]
+    have hj127 : ¬ (k ≠ 0 ∧ j > 127) := by
+      obtain ⟨cj, mj, hg, _⟩ := firstReal?_get _ j hj
+      have h1 := BL.get?_lt _ _ _ hg
+      have h2 := ShapeU_length _ _ _ hsu
+      omega
+    refine ⟨.union p fs' (types ++ List.replicate k (j : Int))
+      (offs ++ (List.range k).map (fun (i : Nat) => cur.getD j 0 + (i : Int))) (cur.set j (cur.getD j 0 + k)), ?_, ?_⟩
+    · rw [pushDefaultK]
+      simp only [ctx_ok, hfr, if_neg hj127]
+      exact (bind_ok _ _ _).2 ⟨_, hat, rfl⟩
+    · simp only [room, hroom]
 theorem pushDefaultKAll_total : ∀ (fs : BL) (k : Nat) (sfs : Fields) (len : Nat), WFL fs len → ShapeL fs sfs →
     defOKFs sfs = true → ∃ fs', pushDefaultKAll fs k = .ok fs' ∧ roomL fs' = roomL fs
   | .nil, _, _, _, _, _, _ => ⟨.nil, rfl, rfl⟩
@@ -168,6 +215,29 @@ theorem pushDefaultKAll_total : ∀ (fs : BL) (k : Nat) (sfs : Fields) (len : Na
     refine ⟨.cons b' m r', ?_, by simp only [roomL, hr, hr']⟩
     simp only [pushDefaultKAll, hb, hrest, bind, Except.bind]; rfl
   | .cons _ _ _, _, .nil, _, _, hs, _ => by simp [ShapeL] at hs
+/-- the union step: some variant is not a placeholder, and `k` placeholders go into the first such -/
+theorem pushDefaultK_total_first : ∀ (fs : BL) (k : Nat) (ufs : UFields) (i : Nat) (cur : List Int), WFU fs cur →
+    ShapeU fs ufs i → defOKFirst ufs = true →
+    ∃ j fs', firstReal? fs = some j ∧ pushDefaultKAt fs j k = .ok fs' ∧ roomL fs' = roomL fs
+  | .nil, _, .nil, _, _, _, _, hd => by simp [defOKFirst] at hd
+  | .nil, _, .cons _ _ _, _, _, _, hs, _ => by simp [ShapeU] at hs
+  | .cons _ _ _, _, .nil, _, _, _, hs, _ => by simp [ShapeU] at hs
+  | .cons b m r, k, .cons tid (.mk fname fdt fn fmd) rest, i, cur, hwf, hs, hd => by
+    simp only [WFU] at hwf
+    simp only [ShapeU] at hs
+    have hp := Shape_placeholder hs.2.1
+    simp only [defOKFirst, isPlaceholderF, ← hp] at hd
+    cases hb : b.isPlaceholder with
+    | true =>
+      rw [hb] at hd; simp only [if_true] at hd
+      obtain ⟨j, r', hj, hr, hroom⟩ := pushDefaultK_total_first r k rest (i + 1) cur.tail hwf.2.2 hs.2.2 hd
+      refine ⟨j + 1, .cons b m r', by simp [firstReal?, hb, hj], ?_, by simp only [roomL, hroom]⟩
+      simp only [pushDefaultKAt, hr, bind, Except.bind]; rfl
+    | false =>
+      rw [hb] at hd; simp only [Bool.false_eq_true, if_false, defOKF] at hd
+      obtain ⟨b', hb', hr⟩ := pushDefaultK_total b k fdt fn fmd hwf.1 hs.2.1 hd
+      refine ⟨0, .cons b' m r, by simp [firstReal?, hb], ?_, by simp only [roomL, hr]⟩
+      simp only [pushDefaultKAt, hb', bind, Except.bind]; rfl
 end
 
 /-! ### `serialize_none` -/
@@ -279,6 +349,7 @@ theorem pushNone_complete : ∀ (b : B) (dt : DataType) (n : Bool) (md : Metadat
     refine ⟨.dictionary p (.leaf p' (.int t) v' (vals' ++ [0])) vals index, ?_, by simp only [room, keyRoom]⟩
     rw [pushNone]
     simp only [ctx_ok]
+    rw [if_neg (by simp only [B.isNullable, hnl.trans hn]; decide)]
     refine (bind_ok _ _ _).2 ⟨_, ?_, rfl⟩
     simp only [pushNone, ctx_ok]
     exact (bind_ok _ _ _).2 ⟨_, hv, rfl⟩
